@@ -1,4 +1,6 @@
-import AlgoVerif.Proofs.C09Valid
+import AlgoVerif.Proofs.C08Total5
+import AlgoVerif.Proofs.C09LeftRecMain
+import AlgoVerif.Proofs.C09LeftFactorPost
 /-!
 # C09 — normal forms are reached, results pass `Verify()`, inputs are never mutated
 
@@ -115,6 +117,63 @@ example :
       ∧ (elimCycles g).map (fun g' => (showGrammar g', validB g')) = .ok ("start=S T={b} N={S} P={S→b}", true) := by
   decide
 
+/-- the result of `ChomskyNormalForm` is in Chomsky normal form in the strict sense of the doc comment of
+`IsCNF`: every production is `A → B C` with `B`, `C` non-terminals other than the start symbol, `A → a`, or
+`S → ε` for the start symbol `S` -/
+theorem C09_cnf_isCNF (g g' : G) (hv : Valid g) (h : cnf g = .ok g') : IsCNF g' :=
+  cnf_isCNF h hv.wellFormed
+
+/-- … and therefore passes the check `(*CFG).IsCNF()` performs (`looseCnfProd`: the same without looking for
+the start symbol in bodies) -/
+theorem C09_cnf_agrees_with_IsCNF (g g' : G) (hv : Valid g) (h : cnf g = .ok g') : looseCNFB g' = true := by
+  have := cnf_isCNF h hv.wellFormed
+  unfold looseCNFB
+  refine List.all_eq_true.mpr (fun p hp => ?_)
+  have hp' := this p hp
+  unfold cnfProd at hp'
+  unfold looseCnfProd
+  split <;> simp_all
+
+/-- the result of `ChomskyNormalForm` passes `Verify()` when `L(G) ≠ ∅` -/
+theorem C09_cnf_valid (g g' : G) (hv : Valid g) (hl : ∃ w, Language g w) (h : cnf g = .ok g') : Valid g' :=
+  cnf_valid h hv hl
+
+/-- unconditional form for `EliminateCycles`: on a valid hygienic grammar with a non-empty language it returns
+a valid grammar without unit productions, without cycles, with reachable symbols only -/
+theorem C09_cycles_total (g : G) (hv : Valid g) (hh : Hygienic g) (hl : ∃ w, Language g w) :
+    ∃ g', elimCycles g = .ok g' ∧ NoUnit g' ∧ NoCycle g' ∧ AllReachable g' ∧ Valid g' := by
+  obtain ⟨g', h⟩ := elimCycles_total hv hh hl
+  exact ⟨g', h, elimCycles_noUnit h, elimCycles_noCycle h hv.wellFormed, elimCycles_allReachable h,
+    elimCycles_valid h hv hl⟩
+
+/-- unconditional form for `ChomskyNormalForm`: on a valid hygienic grammar with a non-empty language it
+returns a valid grammar in Chomsky normal form, unless BIN runs out of numeric suffixes -/
+theorem C09_cnf_total (g : G) (hv : Valid g) (hh : Hygienic g) (hl : ∃ w, Language g w)
+    (hbin : binNamesSuffice g = true) :
+    ∃ g', cnf g = .ok g' ∧ IsCNF g' ∧ Valid g' := by
+  obtain ⟨g', h⟩ := cnf_total hv hh hl (binNamesSuffice_spec hbin)
+  exact ⟨g', h, cnf_isCNF h hv.wellFormed, cnf_valid h hv hl⟩
+
+def cnfTotalWitness : G :=
+  { terms := ["a", "b"]
+    nonterms := ["S", "A"]
+    prods := [{ head := "S", body := [.term "a", .nonterm "S", .term "b", .nonterm "A"] },
+              { head := "S", body := [.nonterm "A"] }, { head := "A", body := [.term "a"] },
+              { head := "A", body := [] }]
+    start := "S" }
+
+-- non-vacuity of the hypotheses of `C09_cnf_total` / `C08_cnf_total`
+set_option maxRecDepth 40000 in
+example : Valid cnfTotalWitness ∧ Hygienic cnfTotalWitness ∧ (∃ w, Language cnfTotalWitness w) ∧
+    binNamesSuffice cnfTotalWitness = true := by
+  refine ⟨by decide, by decide, ⟨[], ?_⟩, by decide⟩
+  -- S ⇒ A ⇒ ε
+  have h1 : Derives cnfTotalWitness [Sym.nonterm "S"] [Sym.nonterm "A"] :=
+    Derives.of_prod (g := cnfTotalWitness) (p := { head := "S", body := [.nonterm "A"] }) (by decide)
+  have h2 : Derives cnfTotalWitness [Sym.nonterm "A"] [] :=
+    Derives.of_prod (g := cnfTotalWitness) (p := { head := "A", body := [] }) (by decide)
+  exact h1.trans h2
+
 /-! ## known findings: kernel-checked witnesses on the Model -/
 
 def leftFactorWitness : G :=
@@ -168,14 +227,39 @@ Full statements not proved (checked on every run by the harness' independent ana
 correspondence of `post` lines between the implementation's result and the Lean decision procedures):
 
     theorem C09_valid_T (g g' : G) (hv : Valid g) (hh : Hygienic g) (hne : ∃ w, Language g w)
-        (h : T g = .ok g') : Valid g'          -- for T ∈ {elimLeftRec, leftFactor, cnf, cnfStart, cnfTerm, cnfBin}
+        (h : T g = .ok g') : Valid g'          -- for T ∈ {elimLeftRec, leftFactor}
     theorem C09_leftrec_noLeftRecursion (g g' : G) (hv : Valid g) (hh : Hygienic g)
         (h : elimLeftRec g = .ok g') : NoLeftRecursion g'
       -- the ordering invariant of the textbook algorithm: after step i every A_k, k ≤ i, has productions
       -- starting with a terminal or some A_m, m > k.
     theorem C09_leftfactor_leftFactored … : false today (C09_leftfactor_counterexample).
-    theorem C09_cnf_isCNF (g g' : G) (hv : Valid g) (hh : Hygienic g) (h : cnf g = .ok g') : IsCNF g'
     theorem C09_noCycleB_iff (g : G) : noCycleB g = true ↔ NoCycle g
     theorem C09_noLeftRecB_iff (g : G) : noLeftRecB g = true ↔ NoLeftRecursion g
       -- the two graph analyses decide the semantic statements.
 -/
+
+/-! ## EliminateLeftRecursion and LeftFactor post-conditions
+(proofs in `Proofs/C09LeftRec*.lean`, `Proofs/C09LeftFactorPost.lean`) -/
+
+/-- `EliminateLeftRecursion` yields no non-terminal `A` with `A ⇒⁺ A α` (direct or indirect), for every valid
+grammar on which the Model returns. -/
+theorem C09_leftrecursion_noLeftRecursion (g g' : G) (hv : Valid g) (h : elimLeftRec g = .ok g') :
+    NoLeftRecursion g' :=
+  AlgoVerif.C08.C09_leftrec_noLeftRecursion g g' hv h
+
+/-- What `LeftFactor` guarantees unconditionally: for every non-terminal of the result either no alternative
+shares its first symbol with another alternative, or every alternative does (the second case is exactly the
+known finding `C09-leftfactor-residual`). -/
+theorem C09_leftfactoring_uniformHeads (g g' : G) (h : leftFactor g = .ok g') : AlgoVerif.C08.UniformHeads g' :=
+  AlgoVerif.C08.C09_leftfactor_uniformHeads h
+
+/-- The result of `LeftFactor` passes `Verify()`. -/
+theorem C09_leftfactoring_valid (g g' : G) (hv : Valid g) (h : leftFactor g = .ok g') : Valid g' :=
+  AlgoVerif.C08.C09_leftfactor_valid hv h
+
+/-- The result of `LeftFactor` is left-factored whenever every head keeps an alternative that shares its first
+symbol with no other (the situation `LeftFactor` is written for). -/
+theorem C09_leftfactoring_leftFactored_of_unique (g g' : G) (hw : WellFormed g) (h : leftFactor g = .ok g')
+    (huniq : ∀ p ∈ g'.prods, ∃ q ∈ g'.prods, q.head = p.head ∧ ¬ AlgoVerif.C08.SharesFirst g' q) :
+    AlgoVerif.C09.Spec.LeftFactored g' :=
+  AlgoVerif.C08.C09_leftfactor_leftFactored_of_unique hw h huniq
